@@ -214,6 +214,10 @@ func strRange(r *object.PanRange, runes []rune) object.PanObject {
 	runeArr := valRange(r, len(runes), func(i int64) object.PanObject {
 		return strIndex(i, runes)
 	})
+	// NOTE: valRange may return an error (zero step)
+	if err, ok := runeArr.(*object.PanErr); ok {
+		return err
+	}
 	var out bytes.Buffer
 	for _, elem := range runeArr.(*object.PanArr).Elems {
 		out.WriteString(elem.(*object.PanStr).Value)
@@ -256,6 +260,10 @@ func valRange(
 	elems := []object.PanObject{}
 	for i := start; hasNext(i, stop); i += step {
 		elems = append(elems, valIndex(i))
+		// next index would pass stop (also prevents int64 overflow of i += step)
+		if (step > 0 && stop-i <= step) || (step < 0 && stop-i >= step) {
+			break
+		}
 	}
 
 	return object.NewPanArr(elems...)
@@ -266,15 +274,23 @@ func canBeUsedForRange(o object.PanObject) bool {
 }
 
 func fixRange(r *object.PanRange, length int64, step int64) (int64, int64) {
+	// ends of the sequence in the direction of step
+	// (bounds out of range are clamped to them)
+	lower, upper := int64(0), length
+	if step < 0 {
+		lower, upper = -1, length-1
+	}
+
 	fix := func(i int64) int64 {
-		if i < -length {
-			return 0
-		}
-		if i > length {
-			return length
-		}
 		if i < 0 {
-			return i + length
+			i += length
+			if i < lower {
+				return lower
+			}
+			return i
+		}
+		if i > upper {
+			return upper
 		}
 		return i
 	}
